@@ -131,8 +131,7 @@ def readWord (f : List UInt8) (o : Nat) : Nat := leVal ((f.drop o).take 4)
 /-- the header a reader finds in `glbFrame json bin` (32-bit little-endian words read back from the bytes) is consistent
     with the payloads: magic, version 2, declared total = actual file length, JSON chunk length = padded JSON length (a
     multiple of 4) with type `JSON`, followed by the JSON text; the file ends there iff the buffer is empty; what follows is
-    `glbBinPart bin`: nothing, or the chunk header (padded buffer length — a multiple of 4 —, type `BIN\0`), the buffer and
-    its zero padding (by definition of `glbBinPart`; total length in `glb_frame_length`).
+    `glbBinPart bin`, of the length given; its words are read back from the bytes in `glb_frame_bin`.
     (`frameOK ∘ readFrame` of Model/GltfSpec states the same on a parsed header; it is what `c06.holds.frame` evaluates.) -/
 theorem glb_frame (json bin : List UInt8) (hsz : (glbFrame json bin).length < 2 ^ 32) :
     readWord (glbFrame json bin) 0 = 0x46546C67 ∧ readWord (glbFrame json bin) 4 = 2
